@@ -216,7 +216,7 @@ def task_composite(ctx, n):
 
 def tasks(tier):
     if tier == "quick":
-        return [("composite-%d" % k, task_composite, dict(n=600)) for k in range(5)]
+        return [("composite-%d" % k, task_composite, dict(n=500)) for k in range(5)]
     return [("composite-%d" % k, task_composite, dict(n=10000)) for k in range(16)]
 
 
